@@ -42,12 +42,19 @@ class Acc:
         if len(self.outcomes) < 400_000:
             self.outcomes.add(hash(key) if not isinstance(key, int) else key)
 
-    def violation(self, sig, case):
+    def violation(self, sig, case, rank=0):
+        """Records a violation; per signature the first case is kept, plus up to 8 alternative
+        cases of lowest rank (tried in order when the first one does not replay standalone)."""
         v = self.viol.get(sig)
         if v is None:
-            self.viol[sig] = {"sig": sig, "case": case, "count": 1}
+            self.viol[sig] = {"sig": sig, "case": case, "count": 1, "alts": [(rank, case)]}
         else:
             v["count"] += 1
+            alts = v["alts"]
+            if len(alts) < 8 or rank < alts[-1][0]:
+                alts.append((rank, case))
+                alts.sort(key=lambda x: x[0])
+                del alts[8:]
 
     def merge(self, other):
         self.n.update(other.n)
@@ -59,8 +66,11 @@ class Acc:
             mine = self.viol.get(sig)
             if mine is None:
                 self.viol[sig] = dict(v)
+                self.viol[sig]["alts"] = list(v.get("alts", []))
             else:
                 mine["count"] += v["count"]
+                mine["alts"] = sorted(mine.get("alts", []) + list(v.get("alts", [])),
+                                      key=lambda x: x[0])[:8]
         self.notes += other.notes
         return self
 
@@ -151,11 +161,18 @@ def finish(prop, tier, seed, t0, acc, coverage, assumptions, module=None):
     shown = 0
     for v in new:
         if module is not None and hasattr(module, "replay") and shown < MAX_VIOLATION_LINES:
-            try:
-                again = module.replay(v["case"])
-            except Exception:  # noqa: BLE001
-                again = ("replay crashed: " + traceback.format_exc(limit=3))
-            if not _reproduced(again, v["sig"]):
+            again = None
+            ok = False
+            for _, cand in (v.get("alts") or [(0, v["case"])]):
+                try:
+                    again = module.replay(cand)
+                except Exception:  # noqa: BLE001
+                    again = ("replay crashed: " + traceback.format_exc(limit=3))
+                if _reproduced(again, v["sig"]):
+                    v["case"] = cand
+                    ok = True
+                    break
+            if not ok:
                 print(f"HARNESS-ERROR property={prop} violation did not reproduce on replay: "
                       f"{v['sig']} -> {again}")
                 harness_error = True
